@@ -132,16 +132,31 @@ def generate(ctx):
     return info
 
 
+INTERFACE_TOL = 1.0e-5   # clean tree: <= 7e-7 over seeds 1..5 (thorough 1..2)
+
+
 def oracle(ctx, rng, n, max_steps=300):
     worst = 0.0
     for ci in range(n):
         nr = rng.choice([2, 2, 3] if ctx.thorough else [2, 2])
         pos = [p for p in gi.core_positions(nr) if rng.random() < 0.7] or [(1, 1)]
-        case = gi.random_case(rng, positions=pos, n_types=rng.choice([1, 2, 2]), gap_model='flow',
-                              length=round(rng.uniform(0.05, 0.25), 3), flow_range=(0.2, 6.0))
+        same_rings = ci % 3 == 1
+        if same_rings:
+            # every third core: two types with the SAME ring count but different pin pitch - the gap mesh around an assembly
+            # then has as many cells as its own duct mesh although the cell boundaries differ
+            while len(pos) < 2:
+                pos = [p for p in gi.core_positions(nr) if rng.random() < 0.7] or [(1, 1)]
+            case = gi.random_case(rng, positions=pos, n_types=2, gap_model='flow', length=round(rng.uniform(0.05, 0.25), 3),
+                                  flow_range=(0.2, 6.0), type_kw=dict(n_ring=rng.choice([2, 3, 3, 4]), n_duct=1))
+            names = list(case['types'])
+            for k, a in enumerate(case['assignment']):
+                a['type'] = names[k % 2]
+        else:
+            case = gi.random_case(rng, positions=pos, n_types=rng.choice([1, 2, 2]), gap_model='flow',
+                                  length=round(rng.uniform(0.05, 0.25), 3), flow_range=(0.2, 6.0))
         case['core']['bypass_fraction'] = round(10 ** rng.uniform(-2.3, -1), 5)
         for tn in list(case['types']):
-            u = rng.random()
+            u = rng.random() if not same_rings else 1.0
             if u < 0.25:
                 gi.add_axial_regions(rng, case, tn, lower=rng.random() < 0.7, upper=rng.random() < 0.7, models=('simple',))
             elif u < 0.4:
@@ -165,7 +180,10 @@ def oracle(ctx, rng, n, max_steps=300):
             Hg = float(np.dot(r.core._sc_mfr, r.core.coolant_gap_temp)) * r.core.gap_coolant.heat_capacity
             P = sum(float(sum(v for v in a._power_delivered.values())) for a in r.assemblies)
             E = float(np.sum(r.core.ebal['asm']))
-            return Hs, Hg, P, E, tuple(a.active_region_idx for a in r.assemblies)
+            per = [(reg_enthalpy(a.active_region) * a.active_region.coolant.heat_capacity,
+                    float(sum(v for v in a._power_delivered.values())), float(np.sum(r.core.ebal['asm'][k])))
+                   for k, a in enumerate(r.assemblies)]
+            return Hs, Hg, P, E, tuple(a.active_region_idx for a in r.assemblies), per
 
         def cb(i, z, dz):
             s = snapshot()
@@ -179,7 +197,21 @@ def oracle(ctx, rng, n, max_steps=300):
                 dHg, dE = s[1] - p[1], s[3] - p[3]
                 # (absolute floor: a step in which nothing is exchanged, e.g. unheated inlet regions, compares 0 with round-off)
                 res2 = abs(dHg - dE) / max(abs(dHg), abs(dE), 1e-9, 1e-2 * abs(dP))
+                # interface, assembly by assembly: what an assembly loses through its outer duct (power delivered minus the
+                # enthalpy rise of its coolant; the duct wall is steady) is what the gap tallies as received from that assembly
+                res3 = 0.0
+                for k, ((h1, p1, e1), (h0, p0, e0)) in enumerate(zip(s[5], p[5])):
+                    q_out = (p1 - p0) - (h1 - h0)
+                    q_in = e1 - e0
+                    r3 = abs(q_out - q_in) / max(abs(q_out), abs(q_in), 1e-3 * abs(p1 - p0), 1e-9)
+                    if r3 > res3:
+                        res3, worst_k, worst_q = r3, k, (q_out, q_in)
+                state['worst_interface'] = max(state.get('worst_interface', 0.0), res3)
                 state['worst'] = max(state.get('worst', 0.0), res, res2)
+                if res3 > INTERFACE_TOL and not bad:
+                    bad.append(dict(step=i, z=z, dz=dz, core_enthalpy_rise=dH, power_delivered=dP, rel=res, gap_enthalpy_rise=dHg,
+                                    gap_tally=dE, rel_gap=res2, interface=dict(assembly=worst_k, lost_by_assembly=worst_q[0],
+                                                                               credited_to_gap=worst_q[1], rel=res3)))
                 if (res > 1e-6 or res2 > 1e-7) and not bad:
                     bad.append(dict(step=i, z=z, dz=dz, core_enthalpy_rise=dH, power_delivered=dP, rel=res,
                                     gap_enthalpy_rise=dHg, gap_tally=dE, rel_gap=res2))
@@ -192,13 +224,20 @@ def oracle(ctx, rng, n, max_steps=300):
             pass
         ctx.evals += 1
         worst = max(worst, state.get('worst', 0.0))
+        ctx.stats["worst_interface_residual"] = max(ctx.stats.get("worst_interface_residual", 0.0), state.get('worst_interface', 0.0))
         if bad:
             b = bad[0]
             kinds = sorted(set(type(a.active_region).__name__ for a in r.assemblies))
-            ctx.violation("c02-core-step-balance:%s" % "+".join(kinds),
-                          "step %d: assembly + gap enthalpy rise %.6g W, power delivered %.6g W (rel %.2g); gap rise %.6g vs tally %.6g"
-                          % (b['step'], b['core_enthalpy_rise'], b['power_delivered'], b['rel'], b['gap_enthalpy_rise'], b['gap_tally']),
-                          case=case, detail=b)
+            if 'interface' in b:
+                it = b['interface']
+                ctx.violation("c02-interface:%s" % "+".join(kinds),
+                              "step %d: assembly %d loses %.9g W through its outer duct but the gap is credited %.9g W from it (rel %.2g)"
+                              % (b['step'], it['assembly'], it['lost_by_assembly'], it['credited_to_gap'], it['rel']), case=case, detail=b)
+            else:
+                ctx.violation("c02-core-step-balance:%s" % "+".join(kinds),
+                              "step %d: assembly + gap enthalpy rise %.6g W, power delivered %.6g W (rel %.2g); gap rise %.6g vs tally %.6g"
+                              % (b['step'], b['core_enthalpy_rise'], b['power_delivered'], b['rel'], b['gap_enthalpy_rise'], b['gap_tally']),
+                              case=case, detail=b)
         if ci < 3:
             ctx.sample(dict(kind="core-sweep", positions=pos, steps=len(r.z) - 1, types={k: v['num_rings'] for k, v in case['types'].items()}))
         import shutil
